@@ -547,3 +547,33 @@ def suffix_length_sub(prog, site):
             if roots_a & roots_in:
                 return "length of the input minus length of the remaining input returned by %s" % ns[-1]
     return None
+
+
+def truncate_at_prefix_len(prog, site):
+    """Structural discharge of `s.truncate(n)`: n is `str::len()` of the first component returned by `split_once` / `split_at` /
+    `rsplit_once` applied to the very same string — a byte length that ends on a character boundary of `s` and is not beyond its end.
+    (A character count, a length of another string or an adjusted length is not.)  Returns a description or None."""
+    from . import terms
+    from .common import callee_names
+    b = site.body
+    t = b.blocks[site.bb]["t"]
+    if len(t.get("args", [])) != 2 or op_local(t["args"][0]) is None or op_local(t["args"][1]) is None:
+        return None
+    recv = terms.strip_views(terms.simplify(terms.term_of_local(b, op_local(t["args"][0]), depth=12)))
+    n = terms.simplify(terms.term_of_local(b, op_local(t["args"][1]), depth=12))
+    if not (isinstance(n, tuple) and n[0] == "call" and n[1] in ("core::str::<impl str>::len", "alloc::string::String::len") and len(n[2]) == 1):
+        return None
+    x = n[2][0]
+    path = []
+    while isinstance(x, tuple) and x and x[0] == "field":
+        path.append(x[3] if len(x) > 3 else None)
+        x = x[1]
+    x = terms.strip_views(x)
+    if not (isinstance(x, tuple) and x[0] == "call" and x[1] in ("core::str::<impl str>::split_once", "core::str::<impl str>::rsplit_once",
+                                                                  "core::str::<impl str>::split_at") and x[2]):
+        return None
+    if not path or path[0] != "0":           # outermost projection: `.0` of the pair = the prefix
+        return None
+    if terms.strip_views(x[2][0]) != recv:
+        return None
+    return "truncate(prefix.len()) with the prefix %s returned for the same string" % x[1].rsplit("::", 1)[-1]
